@@ -13,8 +13,9 @@ SPEC: `sem` — the rows a view stands for, written from the meaning of the cons
 (concatenate / convert row by row / rows `[off, off+len)`).
 
 A row is an abstract `α`. A conversion is the pair `(f, g)`: `f` is what `conversion.Convert` does to
-a row, `g` what the column-chunk face of the converted row group shows for it (`g = f` only for
-targets that delete/permute columns: `chunk_view_eq_row_view_partial`). -/
+a row, `g` what the column-chunk face of the converted row group shows for it (`g = f` for
+targets that delete/permute/widen columns since repair 2c2062a: `chunk_view_eq_row_view`; not for
+added columns). -/
 namespace PqModel.ConvertViews
 
 mutual
